@@ -4,6 +4,7 @@ mod acct;
 mod alloc;
 mod c05;
 mod c06;
+mod c07s;
 mod c08;
 mod c09;
 mod c14;
